@@ -249,19 +249,29 @@ def exec_for(I, node, env):
                 continue
         return
     if ann is None:
-        if isinstance(it, RangeVal) and isinstance(it.start, int) and it.start == 0 and isinstance(it.step, int) and it.step == 1:
-            # no proof is possible without an invariant; the first trip counts are still explored (forking on count == 0, 1, 2)
-            # so that a wrong result on such a path is REFUTED (and replayed) instead of only being reported as out of reach
+        # no proof is possible without an invariant; the first trip counts are still explored (forking on count == 0, 1, 2)
+        # so that a wrong result on such a path is REFUTED (and replayed) instead of only being reported as out of reach
+        space = None  # (length term, index -> item)
+        base, off = (it.inner, it.start) if isinstance(it, EnumerateVal) and isinstance(it.start, int) else (it, None)
+        if isinstance(base, RangeVal) and isinstance(base.start, int) and isinstance(base.step, int) and base.step == 1:
+            space = (simp(Z(base.stop) - base.start), lambda i, a=base.start: a + i)
+        elif isinstance(base, (SBytes, SView)):
+            space = (I.bytes_len(base), lambda i, b=base: I.getitem(b, i))
+        elif isinstance(base, SList):
+            space = (base.length, lambda i, b=base: b.elem(i))
+        if space is not None:
             from .values import PartialReach
 
+            n_items, item_at = space
             i = 0
             while True:
-                if I.branch(Z(it.stop) <= i):
+                if I.branch(Z(n_items) <= i):
                     return
                 if i >= 2:
                     raise PartialReach(f"loop {fname}#{k}: symbolic iteration space and no loop annotation")
                 I.ctx.tick("ticks")
-                I.assign(node.target, i, env)
+                x = item_at(i)
+                I.assign(node.target, x if off is None else (off + i, x), env)
                 i += 1
                 try:
                     I.exec_block(node.body, env)
